@@ -27,7 +27,7 @@ U18(m) == Big(m, 18)                               \* m USDG / GLP in 18-decimal
 MkRow(glp, aum, usdg, w, p, tu, iv, gp) ==
   [glp |-> glp, aum |-> aum, usdg |-> usdg, weight |-> w, price |-> p, tusdg |-> tu, interval |-> iv, glpPrice |-> gp]
 
-Row(i) ==
+RowDef(i) ==
   CASE i = 1 -> MkRow(U18(2224000), Big(21, 35), U18(2000000), W1, P1, TF(U18(157894), U18(1500000), U18(50), U18(1000)), Iv1, Gp1)
     [] i = 2 -> MkRow(U18(2224000), Big(21, 35), U18(2000000), W1, P1, TF(U18(500000), U18(1100000), U18(263000), Zero), Iv1, Gp1)
     [] i = 3 -> MkRow(U18(2224000), Big(21, 35), U18(2000000), W2, P1, TF(U18(500000), U18(1250000), U18(100000), U18(137)), Iv1, Gp1)
@@ -44,6 +44,8 @@ Row(i) ==
                        TF(U18(526315), U18(1210527), U18(263157), Zero), Iv1, Gp1)
 
 NRows == IF Level = 1 THEN 6 ELSE 10
+RowTbl == [i \in 1 .. NRows |-> RowDef(i)]          \* constant: evaluated once by TLC
+Row(i) == RowTbl[i]
 Succ(r) == (r % NRows) + 1
 
 Active(i) == IF Level > 1 THEN Tokens
